@@ -443,6 +443,9 @@ impl<'a> Run<'a> {
                 format!("after {what}: receive assemblers hold {} allocated bytes ({} buffered) for {} unread bytes on {} streams (bound {bound})", pr.streams.recv_allocated, pr.streams.recv_buffered, unread, open),
             ));
         }
+        if pr.datagram_incoming == 0 && pr.datagram_recv_buffered != 0 {
+            return Err(CaseOut::fail("c06/buffer/datagram-accounting", format!("after {what}: no datagram is waiting for the application but {} bytes of the datagram receive buffer are accounted as used", pr.datagram_recv_buffered)));
+        }
         if let Some(cap) = self.c.dgram_buf {
             if pr.datagram_recv_buffered > cap as usize {
                 return Err(CaseOut::fail(
@@ -722,7 +725,7 @@ impl<'a> Run<'a> {
             }
             Step::DgramSmall { len } => {
                 let limit = self.pw.p.peer_tp.as_ref().and_then(|t| t.int(0x20));
-                let payload = (*len as usize).max(1);
+                let payload = *len as usize;
                 let frame_size = 2 + payload;
                 self.m.dgram_seq += 1;
                 let mut data = vec![0u8; payload];
@@ -1204,7 +1207,7 @@ fn arb_step() -> impl Strategy<Value = Step> {
         4 => (arb_stsel(), fin).prop_map(|(st, fin)| Step::Reset { st, fin }),
         2 => (arb_stsel(), 1u16..400).prop_map(|(st, n)| Step::Drip { st, n }),
         5 => (prop_oneof![4 => -3i16..=0, 1 => 1i16..=3], any::<bool>()).prop_map(|(delta, with_len)| Step::Dgram { delta, with_len }),
-        4 => (1u8..60).prop_map(|len| Step::DgramSmall { len }),
+        4 => (0u8..60).prop_map(|len| Step::DgramSmall { len }),
         2 => (arb_delta(), 1u16..600).prop_map(|(delta, len)| Step::Crypto { delta, len }),
         14 => (arb_stsel(), prop_oneof![1u32..100, 100u32..100_000]).prop_map(|(st, max)| Step::Read { st, max }),
         3 => arb_stsel().prop_map(|st| Step::Stop { st }),
